@@ -203,6 +203,9 @@ func (s scanCase) newScan(ctx context.Context, opid string) *hrpc.Scan {
 	if s.Renew > 0 {
 		opts = append(opts, hrpc.RenewInterval(s.Renew))
 	}
+	if s.Seed%4 == 0 {
+		opts = append(opts, hrpc.TrackScanMetrics())
+	}
 	sc, err := hrpc.NewScanRange(ctx, []byte("t"), []byte(s.Start), []byte(s.Stop), opts...)
 	if err != nil {
 		panic(err)
